@@ -45,6 +45,32 @@ def call_replay(lem, cfg, model, seconds=90):
         signal.signal(signal.SIGALRM, old)
 
 
+BASE_ASSUMPTIONS = ['sx engine: proxy semantics of int/bool/real/bytes/str/dict/set and the AST rewrites (validated by ./check selftest: '
+                    '45 repository unit tests run on the instrumented modules, struct/rope/BytesIO differential tests)',
+                    'z3 verdicts (unsat/sat); a solver unknown or timeout is reported as inconclusive, never as a pass']
+AEAD = 'AES-GCM is an ideal AEAD: decrypt succeeds only on a ciphertext the peer object really produced under the same key, nonce and associated data'
+CRC = 'binascii.crc32 is an uninterpreted function; the attacker computes it correctly (CRC-32 is public)'
+CLOCK = 'clocks are exact non-decreasing reals below 2^32 s (float rounding of time.time() is outside)'
+STRUCT = 'struct / io.BytesIO models follow CPython for the formats occurring in /repo'
+ASSUMPTIONS = {
+    'C01': [AEAD, CRC, STRUCT, CLOCK], 'C03': [AEAD, CRC, STRUCT, CLOCK], 'C04': [AEAD, STRUCT, CLOCK, 'C08: window exactness inside the window'],
+    'C05': [AEAD, STRUCT, CLOCK, 'the composition "therefore eventually delivered" is a paper argument over the proven lemmas'],
+    'C06': [STRUCT, CLOCK, 'rope equality is structural: equal verdicts are sound, unrelated opaque contents compare as a free Boolean'],
+    'C07': [CLOCK, STRUCT], 'C08': [STRUCT], 'C09': [STRUCT, CRC, AEAD],
+    'C10': [AEAD, STRUCT, 'single-threaded driver of the real run(): threading/Condition/reactor/socket are inert stand-ins; server.sleep is a no-op',
+            'inside the loop harness get_token hands out distinct values (the generator itself is decided in L10.3)'],
+    'C11': [AEAD, CRC, STRUCT, 'single-threaded driver of the real run() as in C10'],
+    'C12': [CLOCK, AEAD, 'socket/select stand-ins for UdpClient; the induction over emissions ("indefinitely") is a paper step'],
+    'C13': [STRUCT, 'float32 packing is an uninterpreted token with symbolic NaN / out-of-range flags', 'utf-8 length between chars and 4*chars'],
+    'C14': [STRUCT, 'work is counted in loop iterations, function entries and stream reads of the Python code'],
+    'C15': ['json.dumps/loads modelled as identity on plain JSON data with object keys stringified (str(int) <-> int(str) inverse)'],
+    'C16': ['z3 sequence/regex theory; sre parse tree -> z3 Re translation for the constructs the router emits; request paths range over non-control characters',
+            'rate limiter wall clock pinned to a realistic epoch time'],
+    'C17': ['CPython posixpath.py (pure-Python normpath fallback) is the specification of os.path on POSIX; string-level property (no symlinks)'],
+    'C18': [STRUCT], 'C20': ['finite domain enumerated exhaustively through engine decisions'],
+}
+
+
 def jsonable(x):
     try:
         json.dumps(x)
@@ -232,7 +258,7 @@ def run_property(prop, tier, only, nproc, timeout, write_evidence, verbose):
                 solver_queries=tot['queries'], solver_s=round(tot['solver_s'], 2),
                 harness_instances=len(keys), paths_pruned_by_assumptions=tot['pruned'],
                 functions_encoded=sorted(entered | loader.ENTERED)[:500],
-                bounds=getattr(mod, 'BOUNDS', ''),
+                bounds='; '.join('%s: %s' % (lid, pl['bounds']) for lid, pl in per_lemma.items() if pl['bounds']) or getattr(mod, 'BOUNDS', 'see lemmas'),
                 lemmas={lid: dict(desc=pl['desc'], bounds=pl['bounds'], instances=pl['instances'], paths=pl['paths'],
                                   obligations=pl['obligations'], discharged=pl['discharged'],
                                   solver_queries=pl['queries'], solver_s=round(pl['solver_s'], 2),
@@ -242,7 +268,7 @@ def run_property(prop, tier, only, nproc, timeout, write_evidence, verbose):
                 known_findings=kf_lines, inconclusive=inconclusive[:20],
                 exhaustive=False,
             ),
-            assumptions=getattr(mod, 'ASSUMPTIONS', []),
+            assumptions=BASE_ASSUMPTIONS + list(getattr(mod, 'ASSUMPTIONS', [])) + ASSUMPTIONS.get(prop, []),
             wall_s=round(wall, 2), violations=len(violations))
         os.makedirs(os.path.join(VERIF, 'evidence'), exist_ok=True)
         json.dump(ev, open(os.path.join(VERIF, 'evidence', prop + '.json'), 'w'), indent=1, sort_keys=True)
